@@ -54,7 +54,9 @@ def gen_pairs(rng, per_op):
             w, h = rng.randint(1, dw), rng.randint(1, dh)
             dx, dy = rng.randint(0, dw - w), rng.randint(0, dh - h)
             seed = rng.randrange(1, 2 ** 31)
-            geo = rng.choice(["inside", "inside", "outside", "scaled", "bilinear", "translate"])
+            geo = rng.choice(["inside", "inside", "outside", "scaled", "bilinear", "translate", "conv", "conv"])
+            if geo == "conv" and fam in ("S2", "S3"):
+                fam = "S1"      # a solid colour cannot carry the filter; 565 sources use other fetchers
             sw, sh = dw + 6, dh + 4
             sx, sy = rng.randint(0, 3), rng.randint(0, 2)
             t = [FX1, 0, 0, FX1, 0, 0]
@@ -71,6 +73,13 @@ def gen_pairs(rng, per_op):
                 t = [FX1, 0, 0, FX1, FX1 // 2, FX1 // 4]
             elif geo == "translate":
                 t = [FX1, 0, 0, FX1, rng.choice([-2, 1, 3]) * FX1, rng.choice([-1, 0, 2]) * FX1]
+            elif geo == "conv":
+                # convolution / separable convolution kernels with gain 1/2, 1, 3/2 (codes understood by the driver):
+                # an alpha-less image under a kernel whose coefficients do not sum to 1 is not opaque any more
+                sfilt = rng.choice([50, 51, 52, 60, 61, 62])
+                srep = rng.choice([1, 2, 3, 1, 2, 3, 0])
+                if rng.random() < 0.5:
+                    t = [FX1, 0, 0, FX1, rng.choice([0, FX1 // 2]), 0]
             skind, mkind, dfmt = 0, 0, rng.choice([A, X])
             variants = []
             quant = 0
